@@ -97,7 +97,7 @@ fn plan_for(cfg: &Cfg) -> Plan {
                 scenario: scen::c06,
                 meta: EvidenceMeta {
                     level: "exploration",
-                    rule: format!("run index i < {e}: exhaustive call histories (all sequences of length <= {} over the keys \"\",a,aa,ab,b for each of {} front-end variants); i >= {e}: random histories of 1..200 calls with an error rate of 0-60% aimed at each rejection class (duplicate, smaller, proper prefix, empty), bulk calls with a rejected item in the middle, benign sink schedules. Non-trivial = at least one call was rejected; distinct by log digest.", scen::c06_exhaustive_len(cfg), scen::C06_VARIANTS),
+                    rule: format!("run index i < {e}: exhaustive call histories (all sequences of length <= {} over the keys \"\",a,aa,ab,b for each of {} front-end variants: map/set/raw single inserts, raw add, extend_iter, extend_stream, and the one-call entry points Set::from_iter, Map::from_iter, Fst::from_iter_set, Fst::from_iter_map); i >= {e}: random histories of 1..200 calls with an error rate of 0-60% aimed at each rejection class (duplicate, smaller, proper prefix, empty), bulk calls with a rejected item in the middle, benign sink schedules. Non-trivial = at least one call was rejected; distinct by log digest.", scen::c06_exhaustive_len(cfg), scen::C06_VARIANTS),
                     assumptions: common_assume(&["reference = ordering-contract model (last key, accepted list) + clean rebuild of exactly the accepted sequence"]),
                     real: REAL.to_vec(),
                     stubs: STUBS.to_vec(),
